@@ -114,9 +114,12 @@ CoreOutcome(ps, t, key) == Present(WireOf(t), ps.pr, key, ps.footer, ps.assertio
 (***************************************************************************)
 CallSet(obs) == {<<obs.calls[i][1], obs.calls[i][2], obs.calls[i][3]>> : i \in 1..Len(obs.calls)}
 
+\* the error of a failing item: a missing claim is reported as a missing-claim error (C15); a differing value
+\* or a rejecting validator as some other claim error (the properties do not fix the variant); an error that
+\* names a claim names the failing one
 ErrMatches(ps, t, obs, x) ==
-  /\ obs.errkind = FailKind(ps, t, x)
-  /\ (obs.errkey = x \/ (FailKind(ps, t, x) = "validator" /\ obs.errkey = ""))
+  /\ IF FailKind(ps, t, x) = "missing" THEN obs.errkind = "missing" ELSE obs.errkind \in {"mismatch", "validator"}
+  /\ obs.errkey \in {x, ""}
 
 ParseAllowed(ps, t, key, obs) ==
   LET core == CoreOutcome(ps, t, key)
